@@ -53,18 +53,18 @@ using namespace vh;
 using rlbox::tainted;
 using Sb = rlbox::rlbox_sandbox<SbxA>;
 
-static Sb g_sb[2];
-static char g_state[2][2]; // per sandbox two interchangeable state markers; callbacks flip between them
-static int g_state_cur[2];
+static Sb g_sb[3];          // g_sb[2]: a short-lived HELPER sandbox, created, used and destroyed inside an `I 2 ...` node
+static char g_state[3][2]; // per sandbox two interchangeable state markers; callbacks flip between them
+static int g_state_cur[3];
 static std::string g_log;
 static std::vector<std::string> g_tok; static size_t g_pos;
 static void logev(const std::string& s) { if (!g_log.empty()) g_log += ";"; g_log += s; }
 static const std::string& peek() { static const std::string end = "$"; return g_pos < g_tok.size() ? g_tok[g_pos] : end; }
 static std::string next() { return g_pos < g_tok.size() ? g_tok[g_pos++] : std::string("$"); }
-static int sb_of_impl(const SbxA* s) { return s == g_sb[0].get_sandbox_impl() ? 0 : s == g_sb[1].get_sandbox_impl() ? 1 : 9; }
+static int sb_of_impl(const SbxA* s) { return s == g_sb[0].get_sandbox_impl() ? 0 : s == g_sb[1].get_sandbox_impl() ? 1 : s == g_sb[2].get_sandbox_impl() ? 2 : 9; }
 static int g_cur_sb = 9;                 // which sandbox's guest code is running (set by the harness around invokes)
 static uintptr_t g_ep[16]; static int g_nep; // entry points handed out by the registrations of this line, in order
-static int sb_of_ref(const Sb& s) { return &s == &g_sb[0] ? 0 : &s == &g_sb[1] ? 1 : 9; }
+static int sb_of_ref(const Sb& s) { return &s == &g_sb[0] ? 0 : &s == &g_sb[1] ? 1 : &s == &g_sb[2] ? 2 : 9; }
 
 constexpr int NFN = 4;
 using CbSig = long(long);
@@ -75,9 +75,10 @@ static int fn_of_key(const void* key) { for (int i = 0; i < NFN; i++) if (key ==
 
 void vh_tr(int in, bool invoke, const char* name, const void* ptr, void* state)
 {
-  int sb = (state == &g_state[0][0] || state == &g_state[0][1]) ? 0 : (state == &g_state[1][0] || state == &g_state[1][1]) ? 1 : 9;
+  int sb = (state == &g_state[0][0] || state == &g_state[0][1]) ? 0 : (state == &g_state[1][0] || state == &g_state[1][1]) ? 1 :
+           (state == &g_state[2][0] || state == &g_state[2][1]) ? 2 : 9;
   // the payload must be the per-sandbox state at the moment the notification is delivered
-  if (sb < 2 && state != g_sb[sb].get_transition_state()) logev("STALE-STATE");
+  if (sb < 3 && state != g_sb[sb].get_transition_state()) logev("STALE-STATE");
   if (invoke) logev(std::string(in ? "iI" : "oI") + std::to_string(sb) + ":" + (name ? name : "?"));
   else logev(std::string(in ? "iC" : "oC") + std::to_string(sb) + ":" + std::to_string(fn_of_key(ptr)));
 }
@@ -146,6 +147,22 @@ static void run_invokes()
     bool as_void = fault.size() == 2 && fault[1] == 'v';   // "nv" / "av": invoke the void flavour
     if (as_void) fault.pop_back();
     if (fault == "a") arg = (1L << 40) + arg; // not representable in the sandbox's 32-bit long: argument conversion aborts
+    // sandbox 2 lives only for this node: a callback body (or the application) creates a helper sandbox, uses it and destroys it;
+    // the sandboxes that are executing further up the stack must not notice
+    struct Helper {
+      bool on;
+      explicit Helper(bool o) : on(o)
+      {
+        if (!on) return;
+#ifdef CALLS_DYLIB
+        g_sb[2].create_sandbox(getenv("VH_GUEST_SO"));
+#else
+        g_sb[2].create_sandbox();
+#endif
+        g_state_cur[2] = 0; g_sb[2].set_transition_state(&g_state[2][0]);
+      }
+      ~Helper() { if (on) g_sb[2].destroy_sandbox(); }
+    } helper(sb == 2);
     int saved = g_cur_sb; g_cur_sb = sb;
     struct Restore { int& r; int v; ~Restore() { r = v; } } restore{ g_cur_sb, saved };
     if (as_void) {
@@ -164,7 +181,7 @@ template<int K> static tainted<long, SbxA> cbK(Sb& s, tainted<long, SbxA> a)
   long ret = (long)parse_dec(next());
   std::string fault = next();
   logev("c" + std::to_string(K) + ":" + std::to_string(sb_of_ref(s)) + ":" + std::to_string(a.UNSAFE_unverified()));
-  { int i = sb_of_ref(s); if (i < 2) { g_state_cur[i] ^= 1; s.set_transition_state(&g_state[i][g_state_cur[i]]); } }
+  { int i = sb_of_ref(s); if (i < 3) { g_state_cur[i] ^= 1; s.set_transition_state(&g_state[i][g_state_cur[i]]); } }
   run_invokes();
   next(); // E
   if (fault == "b") rlbox::detail::dynamic_check(false, "fault injected in the callback body");
